@@ -71,6 +71,9 @@ func (r *BufferReader) Skip(n int) error {
 }
 
 func (r *BufferReader) ReadWire(l int) (Wire, error) {
+	if l < 0 {
+		return nil, errors.New("encoding.BufferReader.ReadWire: negative length")
+	}
 	if r.pos >= len(r.buf) && l > 0 {
 		return nil, io.EOF
 	}
@@ -83,6 +86,9 @@ func (r *BufferReader) ReadWire(l int) (Wire, error) {
 }
 
 func (r *BufferReader) ReadBuf(l int) (Buffer, error) {
+	if l < 0 {
+		return nil, errors.New("encoding.BufferReader.ReadBuf: negative length")
+	}
 	if r.pos+l > len(r.buf) {
 		return nil, io.ErrUnexpectedEOF
 	}
@@ -173,6 +179,12 @@ func (r *WireReader) ReadWire(l int) (Wire, error) {
 	if !r.nextSeg() && l > 0 {
 		return nil, io.EOF
 	}
+	if l < 0 {
+		return nil, errors.New("encoding.WireReader.ReadWire: negative length")
+	}
+	if l > r.Length()-r.Pos() {
+		return nil, io.ErrUnexpectedEOF
+	}
 	ret := make(Wire, 0, len(r.wire)-r.seg)
 	for l > 0 {
 		if r.seg >= len(r.wire) {
@@ -194,6 +206,16 @@ func (r *WireReader) ReadWire(l int) (Wire, error) {
 
 func (r *WireReader) ReadBuf(l int) (Buffer, error) {
 	if !r.nextSeg() && l > 0 {
+		return nil, io.ErrUnexpectedEOF
+	}
+	if l < 0 {
+		return nil, errors.New("encoding.WireReader.ReadBuf: negative length")
+	}
+	if l == 0 {
+		return Buffer{}, nil
+	}
+	if l > r.Length()-r.Pos() {
+		// do not allocate more than what is left to read
 		return nil, io.ErrUnexpectedEOF
 	}
 	if r.pos+l <= len(r.wire[r.seg]) {
